@@ -496,7 +496,11 @@ func (c1 intConst) unaryOp(op ast.OperatorType, typ reflect.Type) (constant, err
 			m = maxBigUnsigned(k)
 		}
 		i := new(big.Int).Set(c1.i)
-		return intConst{i: i.Xor(m, i)}, nil
+		c := intConst{i: i.Xor(m, i)}
+		if c.overflow() {
+			return intConst{}, errors.New("constant bitwise complement overflow")
+		}
+		return c, nil
 	}
 	return nil, errInvalidOperation
 }
@@ -569,13 +573,25 @@ func (c1 intConst) binaryOp(op ast.OperatorType, c2 constant) (constant, error) 
 		}
 		return intConst{i: new(big.Int).Rem(n1.i, n2.i)}, nil
 	case ast.OperatorBitAnd:
-		return intConst{i: new(big.Int).And(n1.i, n2.i)}, nil
+		c := intConst{i: new(big.Int).And(n1.i, n2.i)}
+		if c.overflow() {
+			return intConst{}, errors.New("constant bitwise AND overflow")
+		}
+		return c, nil
 	case ast.OperatorBitOr:
 		return intConst{i: new(big.Int).Or(n1.i, n2.i)}, nil
 	case ast.OperatorXor:
-		return intConst{i: new(big.Int).Xor(n1.i, n2.i)}, nil
+		c := intConst{i: new(big.Int).Xor(n1.i, n2.i)}
+		if c.overflow() {
+			return intConst{}, errors.New("constant bitwise XOR overflow")
+		}
+		return c, nil
 	case ast.OperatorAndNot:
-		return intConst{i: new(big.Int).AndNot(n1.i, n2.i)}, nil
+		c := intConst{i: new(big.Int).AndNot(n1.i, n2.i)}
+		if c.overflow() {
+			return intConst{}, errors.New("constant bitwise AND NOT overflow")
+		}
+		return c, nil
 	}
 	return nil, errInvalidOperation
 }
